@@ -136,6 +136,48 @@ Print Assumptions kick_reads_in_bounds.
 Example kick_reads_example : kick_read_y 8 0 3 7 6 = None /\ kick_read_y 8 0 3 1 6 = Some 27.
 Proof. vm_compute. split; reflexivity. Qed.
 
+(** 2b. (family usm) the same about the GENERATED body of KickMap::updateSM (Gen/Gen_UpdateSM.v, regenerated from
+    src/SM/KickMap.cpp on every run by symbolic execution with the C++ arithmetic as it is; Proofs/UpdateSMGenP.v).
+    n < 2^24: the source converts the size to float for the guard, exact below 2^24; size*it <= 2^32: the table
+    subscript fits [meshindex_t].  Every entry the generated loop body writes names a cell of the grid row ... *)
+From Inovesa Require Import Proofs.WeightsP Model.UsmOps Gen.Gen_UpdateSM Proofs.UpdateSMGenP.
+
+Theorem kick_table_in_bounds_generated :
+  forall n it o j1, valid_it it -> 0 < n < 2 ^ 24 -> 0 <= j1 < it -> 0 <= fst (usm_entry n it o j1) < n.
+Proof. exact gen_entry_in_bounds. Qed.
+Print Assumptions kick_table_in_bounds_generated.
+
+(** ... the generated loops over an offset vector of [size] entries write slots [0, size*it) of [_hinfo] only (the
+    table KickMap allocates has n*nb*it >= size*it entries), and leave a cell of the grid row in each ... *)
+Theorem kick_table_writes_in_bounds_generated :
+  forall n it size offs (H : Z -> Z * Qc) k,
+    valid_it it -> 0 < n < 2 ^ 24 -> 0 <= size -> size * it <= 2 ^ 32 ->
+    (k < 0 \/ size * it <= k -> usm_update n (usm_ip_of it) (usm_it_of it) size offs H k = H k) /\
+    (0 <= k < size * it -> 0 <= fst (usm_update n (usm_ip_of it) (usm_it_of it) size offs H k) < n).
+Proof. exact usm_gen_table_in_bounds. Qed.
+Print Assumptions kick_table_writes_in_bounds_generated.
+
+(** ... the float -> unsigned conversion [jd = qp_int] is executed under the generated guard only, where it is defined
+    (for EVERY offset: [usm_conv_ok] is "guard -> -1 < value < 2^32" as the translator found the conversion placed;
+    a dropped [qp_int >= 0] or a conversion in front of the test makes it false for an offset below -n/2-1) ... *)
+Theorem updateSM_conversion_defined_generated :
+  forall n o, 0 < n < 2 ^ 24 ->
+    usm_conv_ok n o = true /\ (usm_guard n (usm_qpint n o) = true -> sm_defined_pinned n o = true).
+Proof. exact usm_conversion_defined. Qed.
+Print Assumptions updateSM_conversion_defined_generated.
+
+(** ... and the generated entry function is the table of Model/Kick.v *)
+Theorem updateSM_generated_is_kick_model :
+  forall n it o j1, valid_it it -> 0 < n < 2 ^ 24 -> 0 <= j1 < it -> usm_entry n it o j1 = sm_entry n it o j1.
+Proof. exact usm_entry_model. Qed.
+Print Assumptions updateSM_generated_is_kick_model.
+
+Example kick_table_generated_example : (* n = 32: offset -20 is outside the guard, offset 14.5 loses two stencil points *)
+  usm_conv_ok 32 (Qcz (-20)) = true /\ usm_guard 32 (usm_qpint 32 (Qcz (-20))) = false /\
+  map (fun j => fst (usm_entry 32 4 (Qcz (-20)) j)) (zrange 4) = [16; 16; 16; 16] /\
+  map (fun j => fst (usm_entry 32 4 (Q2Qc (29 # 2)) j)) (zrange 4) = [29; 30; 31; 16].
+Proof. vm_compute. repeat split; reflexivity. Qed.
+
 (** 3. element-wise impedance sum (tree after `fix:` 8635aab, loop bound min of both lengths):
     every cell read and written is inside both tables, whatever their lengths *)
 Theorem impedance_sum_in_bounds :
